@@ -52,6 +52,16 @@ def run_property(P, tier, seed, replay_lines=None):
     rng = random.Random(f"{seed}-{pid}-{tier}")
     workdir = os.path.join(C.CACHE, "run", f"{pid}-{tier}-{os.getpid()}")
     os.makedirs(workdir, exist_ok=True)
+    # work dirs are kept on failure (and left behind by killed runs): prune those older than two hours
+    try:
+        import shutil, time
+        rd = os.path.dirname(workdir)
+        for d in os.listdir(rd):
+            f = os.path.join(rd, d)
+            if f != workdir and time.time() - os.path.getmtime(f) > 7200:
+                shutil.rmtree(f, ignore_errors=True)
+    except OSError:
+        pass
     kf = C.load_known_findings()
     known = {k["signature"]: k for k in kf.get("known", []) if k.get("property") == pid}
 
